@@ -1,8 +1,11 @@
 #!/bin/sh
 # run every own mutant against the check of the property named in its file name prefix
 cd "$(dirname "$0")/.."
+out=mutants/RESULTS.txt
+: > $out.tmp
 for f in mutants/*.diff; do
     b=$(basename "$f" .diff)
     p=$(echo "$b" | cut -d_ -f1)
-    tools/audit.py "$f" "$p" quick 2>&1 | grep -v '^WARNING'
+    tools/audit.py "$f" "$p" quick 2>&1 | grep -v '^WARNING' | cut -c1-230 | tee -a $out.tmp
 done
+mv $out.tmp $out
